@@ -133,7 +133,7 @@ def rules(rep, m):
         loopvar, start, bound = None, None, None
         try:
             first_, last_, step_ = _sr.scan_range_general(m, cs, scan, heap)
-            loopvar = _sr.scan_range_general.last_cursor
+            loopvar = _sr.scan_range_general.last_index
             lo_, hi_ = (first_, last_) if step_ == 1 else (last_, first_)
             okrange = lo_ == _Poly.const(1) and hi_ == _Poly.sym("N")
             start, bound = first_.show(), last_.show()
